@@ -9,7 +9,7 @@ for d in seeded/*/; do
   if ! git -C /repo apply "/verif/$d/patch.diff" 2>/dev/null; then echo "$name: PATCH DOES NOT APPLY"; continue; fi
   ./check "$id" quick > /tmp/regress.out 2>&1
   code=$?
-  git -C /repo checkout -- . ; git -C /repo clean -fdq
+  git -C /repo checkout -- . ; git -C /repo clean -fdq; git -C /verif checkout -- evidence
   keys=$(grep -c "^VIOLATION" /tmp/regress.out)
   echo "$name: $id exit=$code violations=$keys"
 done
